@@ -68,7 +68,7 @@ def _run_task(task):
         if tier == "thorough":
             # thorough tier: exploration budgets are sized for completion (an exhausted budget is inconclusive, never a pass)
             opts["max_paths"] = max(opts.get("max_paths", 0), 3_000_000)
-            opts["timeout_s"] = max(opts.get("timeout_s", 0), 5400)
+            opts["timeout_s"] = max(opts.get("timeout_s", 0), 14400)   # a safety net only: the size of a thorough run is set by the harness bounds
         if tier == "quick":
             # quick tier: no lemma explores for more than 20 min (about 5x the slowest lemma on the unchanged tree); a change that makes
             # the exploration explode then ends as a violation found so far or as inconclusive, not as an hour-long run
